@@ -11,8 +11,8 @@
     R2 no operation early   nothing operation-related happens before the first ack: no resolver
                             runs, no operation is started, no result / complete is sent
     R3 ack answers init     every ack answers one accepted init
-    R4 ping/pong            graphql-transport-ws: one pong per ping and none unsolicited;
-                            graphql-ws has no pong
+    R4 ping/pong            graphql-transport-ws: one pong per ping and one per keep-alive period
+                            (the protocol's heartbeat), none else; graphql-ws has no pong
     R5 operation lifecycle  every started query / mutation (also one answered with errors only)
                             owns exactly [result; complete]; every started subscription owns
                             events 1..k in order, then exactly one complete if and only if it was
@@ -105,7 +105,7 @@ Fixpoint chk_acks (pending : nat) (t : list ev) : bool :=
 
 (** ** R4 *)
 Definition is_ping (p : proto) (e : ev) : bool :=
-  match p, e with PTws, VRecv (Msg TPing _ _) => true | _, _ => false end.
+  match p, e with PTws, VRecv (Msg TPing _ _) => true | PTws, VTick => true | _, _ => false end.
 Definition is_pong (e : ev) : bool := match e with VSend SPong _ => true | _ => false end.
 Fixpoint chk_pongs (p : proto) (pending : nat) (t : list ev) : bool :=
   match t with
